@@ -547,6 +547,12 @@ func (conn *obfs4Conn) Write(b []byte) (int, error) {
 				// window and will sample the length distribution every time a
 				// write is scheduled.
 				targetLen := conn.lenDist.Sample()
+				if targetLen == 0 {
+					// The length distribution can contain 0, which for
+					// burst padding means "end on a segment boundary".
+					// A write can not be empty, so send a full segment.
+					targetLen = framing.MaximumSegmentLength
+				}
 				if frameBuf.Len() < targetLen {
 					// There's not enough data buffered for the target write,
 					// so padding must be inserted.
